@@ -19,7 +19,7 @@ LEAN_MODULE = 'Pycel.Props.C14'
 NS = 'Pycel.Agg.'
 THEOREMS = [NS + t for t in (
     'C14_nums_spec', 'C14_numeric_only', 'C14_ignore_remove', 'C14_ignore_replace', 'C14_first_error',
-    'C14_count_ignores_errors', 'C14_perm', 'C14_perm_two_errors_counterexample', 'C14_perm_count', 'C14_reshape',
+    'C14_error_cells', 'C14_count_ignores_errors', 'C14_perm', 'C14_perm_two_errors_counterexample', 'C14_perm_count', 'C14_reshape',
     'C14_sum_append', 'C14_sum_rows', 'C14_sum_partition', 'C14_sum_filter_partition', 'C14_count_append',
     'C14_average', 'C14_average_empty', 'C14_minmax_empty', 'C14_min_spec', 'C14_max_spec', 'C14_subtotal',
     'C14_subtotal_table', 'C14_subtotal_modelled', 'C14_sumproduct', 'C14_sumproduct_two',
@@ -31,7 +31,7 @@ RULE = ('rect cases: every assignment of an 8-value pool (2 numbers, numeric tex
         'numbers k/2^j, numeric text, text, logicals, blanks and the 7 errors; each case evaluates SUM AVERAGE MIN MAX '
         'COUNT on the rectangle, on permutations (all for <= 4 cells), a reshape, a 2-part partition (parts, and both '
         'parts as two arguments), the numeric+error cells alone, and with ignorable cells replaced; via formula/wb also '
-        'SUBTOTAL(n) for n in 1,2,4,5,9,101,102,104,105,109.  sp cases: SUMPRODUCT of 1-3 ranges (equal shapes, shape '
+        'SUBTOTAL(n) for n in 1,2,4,5,9,101,102,104,105,109.  hostile block: 32 text spellings next to every classification boundary (error / numeric / logical look-alikes, #EMPTY!, empty text) before, after and without a genuine error, via lib/formula/wb, and inside SUMPRODUCT; numpy-typed rects and chain workbooks whose range holds formula cells.  sp cases: SUMPRODUCT of 1-3 ranges (equal shapes, shape '
         'mismatch, errors, scalars).  sub cases: every function number -3..13, 98..113, 201, 209.  scal cases: direct '
         'scalar arguments (lib and formula literals).  A rect case is non-trivial when it has >= 2 cells of >= 2 different kinds; distinct = '
         'distinct case dict.')
@@ -40,7 +40,9 @@ ASSUMPTIONS = [
     'compared as correctly rounded float of the exact quotient (or relative 1e-12)',
     'COUNT ignores error cells (Excel and pycel); the first-error clause is applied to SUM/AVERAGE/MIN/MAX',
     '"first" error = first in row-major order of the range, arguments left to right (flatten order)',
-    'text cells that spell an error code are indistinguishable from error values in pycel and are not generated',
+    'in pycel an error value IS its text: a text cell spelling one of the seven standard codes is that error (not '
+    'generated as text); the text #GETTING_DATA is in the live ERROR_CODES and is generated and treated as an error; '
+    'every other text (error / number / logical look-alikes, #EMPTY!, the empty text) is ignorable text',
     'SUMPRODUCT with error cells / unequal shapes / scalar arguments is outside the statement: the model follows the '
     'code there (first error; #VALUE!)',
     'ragged or empty tuples are never produced by a range read and are not generated',
@@ -53,14 +55,15 @@ REQUIRED_BUCKETS = [
     'rect:mixed:wb', 'rect:one-error:wb', 'rect:nothing-numeric:wb',
     'sp:equal:lib', 'sp:equal:formula', 'sp:equal:wb', 'sp:mismatch:lib', 'sp:mismatch:formula', 'sp:error:lib',
     'sp:scalars:lib', 'sp:scalars:formula', 'sub:named', 'sub:other', 'scal:lib', 'scal:formula',
-    'rect:any:lib:np-f', 'rect:any:lib:np-all', 'chain:np-int', 'chain:np-float', 'chain:plain']
+    'rect:any:lib:np-f', 'rect:any:lib:np-all', 'chain:np-int', 'chain:np-float', 'chain:plain',
+    'rect:hostile:lib', 'rect:hostile:formula', 'rect:hostile:wb', 'sp:hostile:lib', 'sp:hostile:formula']
 EXHAUSTIVE = False
 
 FNS = ('sum', 'average', 'min', 'max', 'count')
 PYNAME = {'sum': 'sum_', 'average': 'average', 'min': 'min_', 'max': 'max_', 'count': 'count'}
 XLNAME = {'sum': 'SUM', 'average': 'AVERAGE', 'min': 'MIN', 'max': 'MAX', 'count': 'COUNT'}
 SUBNUM = {'average': 1, 'count': 2, 'max': 4, 'min': 5, 'sum': 9}      # Excel's documented numbering
-ERRS = ['e:' + t for t in core.TAG_ERRS]
+ERRS = ['e:' + t for t in core.TAG_ERRS]      # + the text '#GETTING_DATA', appended below
 s_ = core.enc_text
 
 
@@ -73,6 +76,15 @@ POOL8 = [n_(1), n_(-5, 1), s_('12'), s_('abc'), 'b:1', 'z', 'e:na', 'e:div0']
 NUMTEXT = [s_(t) for t in ('12', '2.5', '-3', '1e2', ' 4 ', '0')]
 TEXT = [s_(t) for t in ('abc', 'x y', 'TRUE', 'é', '')]
 LOGICAL = ['b:1', 'b:0']
+# hostile spellings around every classification boundary the aggregates make: all of these are plain TEXT
+HOSTILE = ['#TODO', '#12', '#REF', '#N/A ', ' #N/A', '#n/a', '#N/A!', '#VALUE', '#DIV/0', '# NULL!', '#NULL', '#NAME',
+           '#NUM', '#EMPTY!', '#SPILL!', '#CALC!', '#GETTING_DATA!', '#getting_data', '#',       # error look-alikes
+           '1_0', ' 3 ', '1e3', 'inf', 'nan', '-1', '0x10', '1,5',                                  # numeric look-alikes
+           'TRUE', 'true', 'False', 'FALSE',                                                        # logical look-alikes
+           '']
+TEXT += [s_(t) for t in HOSTILE if s_(t) not in TEXT]
+ERR_TEXT_TOKENS = frozenset([s_('#GETTING_DATA')])
+ERRS.append(s_('#GETTING_DATA'))
 FIXEDNUM = [n_(0), n_(1), n_(-1), n_(5, 1), n_(1, 1), n_(3), n_(-29, 2), n_(100), n_(1024), n_(-2048), n_(1, 4)]
 
 
@@ -94,7 +106,9 @@ def is_num(t):
 
 
 def is_err(t):
-    return t.startswith('e:')
+    """an Excel error value: one of the seven codes or a text that IS an error code (ERROR_CODES of the unchanged
+    tree also holds '#GETTING_DATA'); every other text, however error-like it looks, is text"""
+    return t.startswith('e:') or t in ERR_TEXT_TOKENS
 
 
 def is_ign(t):
@@ -228,6 +242,23 @@ def cases(tier, rng):
         for (r, c) in ((2, 2), (1, 4)):
             for cells in itertools.product(POOL8[1:], repeat=4):
                 yield rect_case(rng, 'lib', r, c, list(cells), all_perms=True)
+    # 1b. hostile text, deterministic: every look-alike before / after / without a genuine error
+    for t in [s_(h) for h in HOSTILE]:
+        for via in ('lib', 'formula', 'wb'):
+            if via == 'wb' and t == 's:':
+                continue
+            for r, c, cells in ((1, 3, [t, 'e:ref', n_(2)]), (3, 1, [n_(2), t, s_('#GETTING_DATA')]),
+                                (2, 2, [t, n_(5, 1), 'e:na', 'e:div0']), (1, 2, [t, n_(5, 1)]), (1, 1, [t])):
+                if via != 'lib' and (r, c) in ((2, 2), (1, 1)):
+                    continue
+                case = rect_case(rng, via, r, c, cells, all_perms=True)
+                case['hostile'] = True
+                yield case
+        for via in ('lib', 'formula'):
+            yield {'k': 'sp', 'via': via, 'hostile': True,
+                   'args': [['a', 1, 2, [t, n_(3)]], ['a', 1, 2, [n_(2), n_(4)]]]}
+            yield {'k': 'sp', 'via': via, 'hostile': True,
+                   'args': [['a', 2, 1, [t, 'e:num']], ['a', 2, 1, [n_(2), n_(4)]]]}
     # 2. every shape up to 5x5, six fill styles
     styles = ('mixed', 'numbers', 'noerr', 'one', 'nothing', 'two')
     reps = {'lib': 60 if thorough else 2, 'formula': 12 if thorough else 1, 'wb': 6 if thorough else 0}
@@ -588,6 +619,8 @@ def rect_class(c):
 
 def bucket(c):
     k = c['k']
+    if c.get('hostile'):
+        return f'{k}:hostile:{c["via"]}'
     if k == 'rect':
         return f'rect:{rect_class(c)}:{c["via"]}' + (f':np-{c["np"]}' if c.get('np') else '')
     if k == 'chain':
